@@ -207,6 +207,12 @@ func cmdCheck(args []string) int {
 				confirmedV = append(confirmedV, confirmed{v, "engine-concrete:" + path, "no native adapter for this harness; counterexample re-executed in the engine only"})
 				continue
 			}
+			if v.Label == "glob.write" {
+				// a write to package-level memory has no native symptom (no panic, no failed assertion) on a
+				// single run: it is confirmed by re-executing the path in the engine
+				confirmedV = append(confirmedV, confirmed{v, "engine-concrete:" + path, "write to memory reachable from a package-level variable of the repository; re-executed in the engine only"})
+				continue
+			}
 			to := 20 * time.Second
 			out, err := rp.run(r.h.pkgDir, path, to)
 			if err != nil {
